@@ -27,12 +27,16 @@ EncBytesOk(e) == /\ e.enc = EncryptBytes(e.b, e.key)
                  /\ Len(e.enc) = Len(e.b)
 HetOk(e)   == LET h == HetHash(e.b, e.bits) IN e.file = h.file /\ e.name1 = h.name1
 
+\* jenkins_hash: the as-coded 64-bit accumulator or the published 32-bit function
+OaatOk(e)  == e.v = Oaat64(e.b) \/ e.v = Oaat32(e.b)
+
 Ok(e) == CASE e.ev = "Table"    -> TableOk(e)
            [] e.ev = "Fold"     -> FoldOk(e)
            [] e.ev = "Hash"     -> HashOk(e)
            [] e.ev = "Enc"      -> EncOk(e)
            [] e.ev = "EncBytes" -> EncBytesOk(e)
            [] e.ev = "Het"      -> HetOk(e)
+           [] e.ev = "Oaat"     -> OaatOk(e)
            [] e.ev = "Reset"    -> TRUE
            [] OTHER             -> Assert(FALSE, <<"unknown event", e>>)
 
